@@ -308,9 +308,7 @@ def f_compose_history(case):
             circs[a].take(g)
             progs[a].append(stp['gate']); gates[a].append(g)
         else:
-            b = stp['b'] % k
-            if a == b:
-                continue
+            b = stp['b'] % k         # (a == b: the circuit composed with itself = the circuit repeated twice)
             circs[a].compose(circs[b])
             progs[a] = progs[a] + progs[b]; gates[a] = gates[a] + gates[b]
             ncompose += 1
